@@ -829,7 +829,7 @@ std::string Position::san_without_check(Move move) const
 
     PieceKind moved_piece = make_piece_kind(piece_at(from(move)));
 
-    std::array<Move, 128> moves;
+    std::array<Move, MAX_MOVES> moves;
     Move* begin = moves.data();
     Move* end = generate_moves(*this, _current_side, begin);
     std::vector<Move> matching_moves(begin, end);
